@@ -1,5 +1,6 @@
 import JV.Drv.Common
 import JV.Spec.Cbor
+import JV.Spec.BinFormats
 namespace JV
 namespace Drv
 open Spec.Cbor
@@ -33,11 +34,12 @@ end
 
 /-- bin sdec <fmt> x<bytes> -/
 def binaryLine : List String → String
-  | ["sdec", "cbor", x] =>
+  | ["sdec", fmt, x] =>
     match (match x.toList with | 'x' :: cs => Wire.bytesOfHexChars cs | _ => none) with
     | none => "bad-op"
     | some s =>
-      match decode s with
+      match (if fmt = "cbor" then decode s else if fmt = "msgpack" then Spec.Msgpack.decode s
+             else if fmt = "bson" then Spec.Bson.decode s else Spec.Ubjson.decode s) with
       | .ok v _ => "ok " ++ " ".intercalate (bvTokens v)
       | .illformed => "ill"
       | .unjudged => "unjudged"
